@@ -103,6 +103,15 @@ func VerifC17Ballots() {
 	for s := 0; s < k; s++ {
 		c, forA, gap := vInt("caller"+stepTags[s]), vBool("idIsA"+stepTags[s]), vInt("gap"+stepTags[s])
 		vAssume(c >= 0 && c <= n) // n = a stranger
+		if m == 3 { // a removal vote for a candidate already removed is outside this harness: the history goes
+			// on with the other candidate (what a finished removal did to the OTHER ballot shows only then)
+			if firedA > 0 {
+				vAssume(!forA)
+			}
+			if firedB > 0 {
+				vAssume(forA)
+			}
+		}
 		vAssume(gap >= 0 && gap <= 25)
 		vAdvance(gap)
 		for i := 0; i < n; i++ {
@@ -162,6 +171,8 @@ func VerifC17Ballots() {
 			vAssert((firedA > 0) == (ra != nil) && (firedB > 0) == (rb != nil), "C17/effect-exactly-when-2n/3+1-distinct-members-voted")
 		case 1:
 			vAssert(vGasOf(user) == paid && vGasOf(self) == 1000-paid, "C17/effect-exactly-when-2n/3+1-distinct-members-voted")
+			// the same observation as C19's accounting clause (these jobs are also registered under C19)
+			vAssert(vGasOf(user) == paid && vGasOf(self) == 1000-paid, "C19/cheque-paid-exactly-once-per-approval")
 		case 2:
 			_, r := vRead("neofs", "alphabetList")
 			ln := len(r.([]struct{ k []byte }))
@@ -180,8 +191,8 @@ func VerifC17Ballots() {
 				want--
 			}
 			vAssert(ln == want, "C17/effect-exactly-when-2n/3+1-distinct-members-voted")
-			if firedA+firedB > 0 {
-				return // a second removal vote for a removed candidate is outside this harness
+			if firedA > 0 && firedB > 0 {
+				return
 			}
 		}
 	}
